@@ -1,6 +1,6 @@
 """C02 — energy arrives at its time of flight and is never wrapped around the histogram."""
 import numpy as np
-from .. import common, kernels
+from .. import common, kernels, energy, scenes
 
 LEVEL = 'proof'
 RULE = ('kernel-level cases: random scenes (P<=8 patches, D<=3 slots, B<=3 bands, S in {1..64} bins, '
@@ -22,6 +22,37 @@ def run(ctx):
     kernels.corr_collect(ctx, ccases)
     corr_kang_delay(ctx, n)
     oracle(ctx, budget_s=20 if ctx.tier == 'quick' else 300, cases=cases, ccases=ccases)
+    for _ in range(1 if ctx.tier == 'quick' else 10):
+        direct_sound_oracle(ctx)
+
+
+def direct_sound_oracle(ctx):
+    """Object level: the direct sound is one more arrival — it lands in bin int(r/c/dt) and nowhere
+    else, and is dropped (not moved to another bin) when that bin lies beyond the histogram."""
+    sc = energy.gen_scene(ctx.rng, small=True)
+    r = energy.run_all(sc)
+    S = np.asarray(r._energy_exchange_etc).shape[-1]
+    step = r.speed_of_sound * r._etc_time_resolution
+    src = np.asarray(sc['src'], float)
+    recs = np.vstack([np.asarray(sc['recs'], float)[:1],
+                      (src + np.array([(S - 0.5) * step, 0.0, 0.0]))[None, :],     # last bin
+                      (src + np.array([(S + 0.5) * step, 0.0, 0.0]))[None, :],     # first bin beyond the end
+                      (src + np.array([(2 * S + 3.5) * step, 0.2, 0.1]))[None, :]])
+    mono = r.collect_energy_receiver_mono(scenes.coords(recs)).time
+    mono_d = r.collect_energy_receiver_mono(scenes.coords(recs), direct_sound=True).time
+    ctx.oracle_evals += 2
+    for k in range(len(recs)):
+        rr = float(np.linalg.norm(recs[k] - src))
+        nb = int(rr / r.speed_of_sound / r._etc_time_resolution)
+        diff = mono_d[k] - mono[k]
+        where = sorted(set(int(x) for x in np.nonzero(diff)[1]))
+        allowed = [nb] if nb < S else []
+        ctx.count('direct.bin_%s' % ('inside' if nb < S else 'beyond_end'))
+        if any(w not in allowed for w in where):
+            ctx.violation('direct-sound-misplaced',
+                          'direct sound with travel-time bin %d in a %d-bin histogram shows up in bin(s) %s' % (nb, S, where),
+                          dict(energy.scene_input(sc), recs=recs), {'bins': where}, {'bins': allowed})
+            return
 
 
 def corr_kang_delay(ctx, n):
